@@ -97,6 +97,9 @@ impl Core {
                         &format!("flute's receiver-side parser rejects a packet of flute's sender: {}", u),
                     );
                 }
+                if let Some(u) = &s.pktlen_odd {
+                    o.fail(&format!("{}:pkt-length-model", s.sp.prop), &format!("datagram lengths of an object do not follow the rule the model assumes: {}", u));
+                }
                 let refused: Vec<String> = s.objs.iter().filter(|x| x.created && x.toi.is_none()).map(|x| x.idx.to_string()).collect();
                 self.oracle_refusal(s, o);
                 format!(
@@ -107,9 +110,17 @@ impl Core {
                     if s.stuck { " stuck" } else { "" }
                 )
             }
+            // end of the n-th consecutive full cycle from the start of the stream (default 1)
             "cycle" => match &self.sess {
                 None => "no-session".into(),
-                Some(s) => cycle_end(s, 0).map(|x| x.to_string()).unwrap_or("-".into()),
+                Some(s) => {
+                    let k: usize = rest.trim().parse().unwrap_or(1);
+                    let mut pos = Some(0usize);
+                    for _ in 0..k.max(1) {
+                        pos = pos.and_then(|i| cycle_end(s, i));
+                    }
+                    pos.map(|x| x.to_string()).unwrap_or("-".into())
+                }
             },
             "stream" => match &self.sess {
                 None => "no-session".into(),
@@ -317,6 +328,69 @@ impl Core {
         f
     }
 
+    fn cache_bytes(&self, s: &Session) -> u128 {
+        if s.sp.maxc == 0 {
+            10 * 1024 * 1024
+        } else {
+            s.sp.maxc as u128
+        }
+    }
+
+    /// byte length the receiver accounts per source block
+    fn block_bytes(&self, oi: &ObjInfo) -> Vec<u128> {
+        let tl = oi.tl.unwrap_or(0) as u128;
+        let e = oi.oti.e as u128;
+        let mut off = 0u128;
+        ks_of(&oi.oti, oi.tl.unwrap_or(0))
+            .iter()
+            .map(|k| {
+                let full = k * e;
+                let len = if oi.oti.sch == Scheme::RsUs { full } else { full.min(tl.saturating_sub(off)) };
+                off += full;
+                len
+            })
+            .collect()
+    }
+
+    /// D32: before the FDT instance completes (fed position `fpos`) the receiver had to hold more of the
+    /// object than object_max_cache_size allows - in-band FTI: a third or later block cannot be allocated
+    /// next to the blocks already held (no writer yet, nothing is written); FDT-only OTI: the packet cache
+    /// is full when a further packet arrives
+    fn held_before_fdt_exceeds_cache(&self, s: &Session, oi: &ObjInfo, sel: &[usize], fpos: usize) -> bool {
+        let toi = match oi.toi {
+            Some(t) => t,
+            None => return false,
+        };
+        let cache = self.cache_bytes(s);
+        let pre: Vec<&Dgram> = sel[..fpos.min(sel.len())].iter().map(|&i| &s.stream[i]).filter(|d| d.toi == toi).collect();
+        if oi.oti.ifti {
+            let bl = self.block_bytes(oi);
+            let mut held: Vec<u32> = Vec::new();
+            let mut bytes = 0u128;
+            for d in pre {
+                if held.contains(&d.sbn) {
+                    continue;
+                }
+                let len = bl.get(d.sbn as usize).copied().unwrap_or(0);
+                if held.len() >= 2 && bytes + len > cache {
+                    return true;
+                }
+                held.push(d.sbn);
+                bytes += len;
+            }
+            false
+        } else {
+            let mut bytes = 0u128;
+            for d in pre {
+                if bytes >= cache {
+                    return true;
+                }
+                bytes += d.data.len() as u128;
+            }
+            false
+        }
+    }
+
     fn max_block_bytes(&self, oi: &ObjInfo) -> u128 {
         ks_of(&oi.oti, oi.tl.unwrap_or(0)).iter().max().copied().unwrap_or(0) * oi.oti.e as u128
     }
@@ -494,6 +568,8 @@ impl Core {
                 "C02:D3-close-flag-early"
             } else if first_b.is_some() && fpos.unwrap() > first_b.unwrap() {
                 "C02:fdt-after-close"
+            } else if self.held_before_fdt_exceeds_cache(s, oi, sel, fpos.unwrap()) {
+                "C02:object-larger-than-cache-before-fdt"
             } else {
                 "C02:not-delivered"
             };
@@ -532,7 +608,15 @@ impl Core {
             }
             let delivered = rx.recs.iter().any(|r| r.toi == toi && count(r, 'c') > 0 && *r.data.borrow() == *content);
             if !delivered {
-                let cls = "C16:not-delivered";
+                // D33: the bytes of all blocks of the object exceed object_max_cache_size (a late joiner has
+                // to hold the blocks that follow the first incomplete one); the writer only ever saw open / error
+                let total: u128 = self.block_bytes(oi).iter().sum();
+                let only_oe = rx
+                    .recs
+                    .iter()
+                    .filter(|r| r.toi == toi)
+                    .all(|r| matches!(r.calls.borrow().iter().filter(|c| **c != 'w').collect::<String>().as_str(), "o" | "oe"));
+                let cls = if total > self.cache_bytes(s) && only_oe { "C16:object-larger-than-cache" } else { "C16:not-delivered" };
                 o.fail(
                     cls,
                     &format!(
